@@ -51,7 +51,7 @@ PROPS["C12"] = dict(
           "loaded into an in-memory DHStoreAPI only through dhash functions, metadata-only and with pcache over a local HTTP source, "
           "with hostile extra value keys / garbled metadata. distinct_nontrivial = distinct (payload len, passphrase len), "
           "(key type, ctx len), (hash code, len) and find-configuration tuples."),
-    floors={"quick": {"truncations": 5000, "bitflips": 5000, "find_nonempty_results": 100, "find_hostile_stores": 20, "peerkind_identity": 100, "peerkind_sha256": 100},
+    floors={"quick": {"truncations": 5000, "bitflips": 5000, "find_nonempty_results": 100, "find_hostile_stores": 20, "find_via_dhstore_http": 20, "peerkind_identity": 100, "peerkind_sha256": 100},
             "thorough": {"truncations": 200000, "bitflips": 200000, "find_nonempty_results": 4000, "find_hostile_stores": 1000}},
     level_text=("Exploration: every decryption entry point is driven with every truncation and a flip at every byte of real "
                 "ciphertexts and must fail closed without panicking; round trips, determinism and the value-key split are checked "
